@@ -330,9 +330,21 @@ def strip_io(l):
     return l.split(" #io=")[0]
 
 
+ALLOC_LIMIT_MB = 128          # = Sqfs.C10P.allocLimit of lean/Sqfs/Model/C10Dec.lean
+
+
+def harness_env(ctx):
+    """the sanitizer environment of the framework plus a *deterministic* allocation limit: a request for more than
+    ALLOC_LIMIT_MB fails (SQFS_ERROR_ALLOC in the code under test, errAlloc in the model); without it the outcome of a
+    garbage size field (damaged image, bogus reference) would depend on the machine's memory"""
+    e = ctx.san_env()
+    e["ASAN_OPTIONS"] = e["ASAN_OPTIONS"] + ":max_allocation_size_mb=%d" % ALLOC_LIMIT_MB
+    return e
+
+
 def run_harness(ctx, harness, lines, timeout=120):
     try:
-        r = vlib.sh([str(harness)], input="\n".join(lines) + "\n", env=ctx.san_env(), timeout=timeout, errors="replace")
+        r = vlib.sh([str(harness)], input="\n".join(lines) + "\n", env=harness_env(ctx), timeout=timeout, errors="replace")
         err = r.stderr
         i = err.find("ERROR: AddressSanitizer")
         if i < 0:
@@ -829,6 +841,9 @@ def run(ctx):
     wok, wlog = ctx.lean_build(["Sqfs.Witness.C10"])
     if not wok:
         ctx.violation("proof:C10-witness", "Sqfs/Witness/C10.lean no longer builds", {"log": wlog[-1500:]}, found_input=False)
+    m = re.search(r"def allocLimit : Nat := (\d+)", (vlib.LEAN / "Sqfs/Model/C10Dec.lean").read_text())
+    if not m or int(m.group(1)) != ALLOC_LIMIT_MB << 20:
+        raise vlib.CheckFailure("allocation limit of the model (%s) and of the harness (%d MiB) differ" % (m and m.group(1), ALLOC_LIMIT_MB))
     harness = build_harness(ctx)
     eps = corpus_episodes()
     ncorpus = len(eps)
